@@ -122,6 +122,7 @@ def handle : Handler := fun op inp impl =>
   | "e2e" =>
     -- the main stream must not contain the shape of known finding F07 (it has its own op)
     if ((arr (field inp "cases")).map tcOf).any isF07 then bad "F07-shaped case in the e2e stream" else
+    if str (field inp "mode") == "client" && ((arr (field inp "cases")).map tcOf).any isF27 then bad "F27-shaped case in the client-mode e2e stream" else
     judgeE2E inp impl
   | "e2e-f07" =>
     -- only F07-shaped cases: full-duplex, no responses, an error, >= 2 requests
@@ -133,6 +134,18 @@ def handle : Handler := fun op inp impl =>
       !((str (field p "why")).startsWith "expecting " && (str (field p "why")).endsWith " request messages to be described but instead got 1"))
     if other.isEmpty then { v with why := if v.holds then "" else "F07: " ++ v.why }
     else { v with holds := false, why := "failure other than the F07 symptom: " ++ toString ((other.take 2).map (fun p => str (field p "name") ++ " :: " ++ str (field p "why"))) }
+  | "e2e-f27" =>
+    -- only F27-shaped cases (empty request stream), mode client
+    if !(((arr (field inp "cases")).map tcOf).all isF27) || str (field inp "mode") != "client" then bad "e2e-f27 input outside the F27 shape" else
+    let v := judgeE2E inp impl
+    -- every failure of this op must be the F27 symptom (grpc-go's own HTTP/2 server, gRPC, timed out) and nothing else
+    let perms := arr (field impl "perms")
+    let has (s sub : String) : Bool := (s.splitOn sub).length > 1
+    let other := perms.filter (fun p => str (field p "verdict") != "pass" &&
+      !(has (str (field p "name")) "HTTPVersion:2/Protocol:PROTOCOL_GRPC/" && has (str (field p "name")) "(grpc server impl)" &&
+        has (str (field p "why")) "timed out waiting for result from client"))
+    if other.isEmpty then { v with why := if v.holds then "" else "F27: " ++ v.why }
+    else { v with holds := false, why := "failure other than the F27 symptom: " ++ toString ((other.take 2).map (fun p => str (field p "name") ++ " :: " ++ str (field p "why"))) }
   | _ => bad ("unknown op " ++ op)
 
 end ConfModel.Driver.C02
